@@ -22,7 +22,7 @@ class State:
 
 def setup(E, rank, N, flags=('F', 'F', 'F'), diam=None, positive_g=False):
     """flags: space of (totalCorr, directCorr, omega) at the start: 'F' Fourier | 'R' Real."""
-    B = build(E, rank, N, diam=diam or {t: 1 + (i % 2) for i, t in enumerate(TYPES[:rank])})
+    B = build(E, rank, N, diam=diam or {t: 1 + (i % 2) for i, t in enumerate(TYPES[:rank])}, reassign=True)
     P = B.S.createPRISM()
     St = State(); St.B = B; St.P = P; St.N = N; St.n = rank; St.types = B.types; St.E = E
     n = rank
